@@ -664,7 +664,7 @@ func (vc *VC) lookup(h *Heap, fam string) string {
 			t = vc.lookup(h.parent, fam)
 		}
 	case hHavocSet:
-		if (inSet(h.set, fam) && !vc.isGhostFam(fam)) || h.set[fam] {
+		if (inSet(h.set, fam) && !vc.isGhostFam(fam)) || h.set[fam] || h.set[fam+"*"] || h.set[ghostBase(fam)+"*"] {
 			t = vc.declConst(fmt.Sprintf("%s@%d", fam, h.id), srt)
 		} else {
 			t = vc.lookup(h.parent, fam)
@@ -850,4 +850,12 @@ func (vc *VC) isGhostFam(fam string) bool {
 func isAtomicValue(t types.Type) bool {
 	n, ok := types.Unalias(t).(*types.Named)
 	return ok && n.Obj().Pkg() != nil && n.Obj().Pkg().Path() == "sync/atomic" && n.Obj().Name() == "Value"
+}
+
+// ghostBase strips a leaf suffix (#t, #v, ...) from a family name.
+func ghostBase(fam string) string {
+	if i := strings.Index(fam, "#"); i >= 0 {
+		return fam[:i]
+	}
+	return fam
 }
